@@ -17,11 +17,11 @@ Theorem C03_diamond_multiplies :
 Proof. exact diamond_counts. Qed.
 Print Assumptions C03_diamond_multiplies.
 
-(* the strongest positive theorem: for every workflow (any number of nodes, any list lengths) in which the
-   state-carrying inputs of every node either carry separate origins (no open axis in common, none an input
-   of another) or are exactly a state and a node that only hands that state on; that never combines away all
-   inherited axes under an own splitter; and never combines over an empty box — the model's outputs are the
-   nested-loop outputs.  The excluded class is computable: c03_aligned wf = false (findings F03, F03g, F03h). *)
+(* the strongest positive theorem: for every workflow (any number of nodes, any list lengths, any own splitters
+   and combiners) in which the state-carrying inputs of every node either carry separate origins (no open axis
+   in common, none an input of another) or are exactly a state and a node that only hands that state on, the
+   model's outputs are the nested-loop outputs.  The excluded class is computable: share_class wf = false
+   (finding F03). *)
 Theorem C03_partial : forall wf : workflow, c03_aligned wf = true -> model_run wf = Some (spec_run wf).
 Proof. exact aligned. Qed.
 Print Assumptions C03_partial.
@@ -51,37 +51,19 @@ Proof. exact fanin_example_in_class. Qed.
 (* chains, fan-out, trees of pipelines: every node takes all its upstream inputs from one node (possibly
    through several fields, with own splitters and combiners) — any length, any list sizes *)
 Theorem C03_chain : forall wf : workflow,
-  wf_ok wf = true -> forallb single_input wf = true ->
-  comb_all_prev_class wf = true -> empty_comb_class wf = true ->
-  model_run wf = Some (spec_run wf).
+  wf_ok wf = true -> forallb single_input wf = true -> model_run wf = Some (spec_run wf).
 Proof. exact chain_class. Qed.
 Print Assumptions C03_chain.
 
-Theorem C03_chain_no_combiner : forall wf : workflow,
-  wf_ok wf = true -> forallb single_input wf = true -> forallb no_combiner wf = true ->
-  model_run wf = Some (spec_run wf).
-Proof. exact chain_nocomb. Qed.
-Print Assumptions C03_chain_no_combiner.
-
-Example C03_chain_example :
-  wf_ok chain_example = true /\ forallb single_input chain_example = true /\
-  comb_all_prev_class chain_example = true /\ empty_comb_class chain_example = true.
+Example C03_chain_example : wf_ok chain_example = true /\ forallb single_input chain_example = true.
 Proof. exact chain_example_in_class. Qed.
 
 (* fan-in of independent origins: the inputs of every node have pairwise no common ancestor
    (a graph condition: the provenance of every node is a forest) *)
 Theorem C03_fanin_independent : forall wf : workflow,
-  wf_ok wf = true -> independent_inputs wf = true ->
-  comb_all_prev_class wf = true -> empty_comb_class wf = true ->
-  model_run wf = Some (spec_run wf).
+  wf_ok wf = true -> independent_inputs wf = true -> model_run wf = Some (spec_run wf).
 Proof. exact fanin_class. Qed.
 Print Assumptions C03_fanin_independent.
-
-Theorem C03_fanin_independent_no_combiner : forall wf : workflow,
-  wf_ok wf = true -> independent_inputs wf = true -> forallb no_combiner wf = true ->
-  model_run wf = Some (spec_run wf).
-Proof. exact fanin_nocomb. Qed.
-Print Assumptions C03_fanin_independent_no_combiner.
 
 Example C03_fanin_example : independent_inputs fanin_example = true.
 Proof. exact fanin_example_independent. Qed.
